@@ -199,12 +199,9 @@ func newLocalImporter(globalNames []string, sourceDir string) importer.Importer 
 }
 
 func resolveModule(m *object.Module, attr []string) (*object.Module, bool) {
-	if len(attr) == 0 {
-		return m, true
-	}
-	var result *object.Module
+	result := m
 	for _, name := range attr {
-		if obj, ok := m.GetAttr(name); ok {
+		if obj, ok := result.GetAttr(name); ok {
 			if modObj, ok := obj.(*object.Module); ok {
 				result = modObj
 				continue
